@@ -1,4 +1,5 @@
 import TensorModel.Proofs.Kernels
+import TensorModel.Proofs.CoreEq
 /-!
   C06 — elementwise arithmetic is coordinate-wise, in operand order, layout-blind.
   Property theorems only; helper lemmas live in `TensorModel/Proofs/Kernels.lean`.
@@ -577,5 +578,18 @@ example : ∃ out, engArithVV st "add" numberTypes tT tb {} = .ok out ∧
     cell out.st 5 2 = some (.app2 "add" (.src 0 2) (.src 1 1)) := ⟨_, rfl, rfl⟩
 
 end Ex
+
+/-! ## the source of the shape test of `binaryCheck` -/
+
+/-- `shape.go:Shape.Eq` (translated from the source on this run) is the model's `shapeEq` — the test
+    `binaryCheck` applies to the two operand shapes — for all shapes. -/
+theorem Shape_Eq_source (s o : Shape) : Gen.Shape_Eq s o = .ok (shapeEq s o) := Gen.Shape_Eq_eq s o
+
+/-- in particular, operands of different rank ≥ 3 or different extents are never "equal" -/
+theorem Shape_Eq_source_strict (s o : Shape) (hs : isVector s = false) :
+    Gen.Shape_Eq s o = .ok (if isScalar s && isScalar o then true else s == o) := by
+  rw [Shape_Eq_source]
+  unfold shapeEq
+  simp [hs]
 
 end TM.C06
